@@ -22,7 +22,8 @@ Section Sound.
 
   (* a value that an undecodable escape has emptied is never judged (fix F16) *)
   Definition decodable (val : bytes) : bool :=
-    negb ((match seen_value val with [] => true | _ => false end) && negb (match val with [] => true | _ => false end)).
+    negb ((match seen_value val with [] => true | _ => false end) && negb (match val with [] => true | _ => false end)) &&
+    negb (unterminated val).
 
   Lemma decl_allowed_spec elem prop val :
     decl_allowed I p (element_styles I p elem) prop val =
